@@ -3,7 +3,7 @@
 Coq-evaluated cases (gen_cases / run_impl / coq_term) tie Model/Repro.v to the real code:
   dom    Fragment.prepare of a generated design: order of the missing_domain calls and final port names
   names  Design._assign_names per fragment of a generated design (inputs taken from the real Design)
-  add    runs of _ir._add_name on one set (exhaustive small scope + random; includes the S3 assertion)
+  add    runs of _ir._add_name on one set (exhaustive small scope + random; includes the S3 inputs a, a$2, a)
   ports  Design._assign_port_names on a bare port list
   plan   BuildPlan.add_file / digest (bytes fed to the hasher) / archive (members) / extract (directory listing)
   reset  engine state before/after Simulator.reset() of a partially run simulation
@@ -34,7 +34,8 @@ RULE = ("dom/names: seeded random designs (module trees of depth<=3, 3-9 signals
         "created, (names) some name got a $n suffix, (add) some name was already in the set, (plan) >=2 files, (reset) time advanced; "
         "distinct by case hash")
 MODELLED = ("modelled in coq/Model/Repro.v (not verified code): DomainCollector + _propagate_domains_down + "
-            "_create_missing_domains (sorted iteration) + the port list of Fragment.prepare, _add_name, "
+            "_create_missing_domains (sorted iteration) + the port list of Fragment.prepare, _add_name (retry loop of cb9d97a on fuel "
+            "|set|+1, proved sufficient), "
             "Design._assign_port_names/_assign_names (one fragment; first-use order of signals is an INPUT taken from the real "
             "Design), BuildPlan.add_file/digest/archive/extract, the fields touched by Simulator.reset(). "
             "VALIDATED ONLY (exploration, not a theorem): byte-identical RTLIL / simulation traces / build plans across separate "
@@ -870,8 +871,8 @@ def coq_term(c):
 
 
 def explain(c):
-    return {"add": "[1, names returned by the _add_name calls, size of the set] | [-1,1] AssertionError",
-            "ports": "[1, final port names] | [-1,1] AssertionError | [-1,2] TypeError",
+    return {"add": "[1, names returned by the _add_name calls, size of the set] | [-1,1] AssertionError (impossible since cb9d97a; model: out of fuel)",
+            "ports": "[1, final port names] | [-1,1] AssertionError (impossible since cb9d97a) | [-1,2] TypeError",
             "dom": "[1, domains in the order missing_domain was called, design.ports names (= RTLIL port order)]",
             "names": "per fragment [1, signal_names, io_port_names, subfragment names]; [0] = ordered inputs not reproducible",
             "plan": "[1, bytes hashed by digest(), archive members, sorted listing after extract()] | [-1,1] duplicate file",
